@@ -74,6 +74,9 @@ def units(tier):
     # the bin table handed over in other forms (row labels, coordinate dtypes, chromosome column types, extra columns of several dtypes)
     for b in range(0, 40, 5):
         yield {"leg": "binsform", "b": b}
+    # one stored matrix with more than 1,000,000 pixels (1450 bins, dense upper triangle; the library builds its row index in blocks of
+    # 1e6 records): the rows around record 1,000,000 and both ends read back through matrix() windows and the pixel table
+    yield {"leg": "million"}
     # bin-id columns of every integer dtype on tables just large enough that bin1*n_bins+bin2 leaves the dtype (anything computed
     # from the ids in their own dtype wraps there), rows given sorted / reversed / as a dict; count values of both signs
     for dt, n in (("int8", 13), ("uint8", 17), ("int16", 190), ("uint16", 260), ("int32", 46400), ("uint32", 65600), ("int64", 13), ("uint64", 13)):
@@ -610,6 +613,51 @@ def _binsform(R, b, only):
             scratch.rm(p)
 
 
+def _million(R, only):
+    import cooler
+    n = 1450
+    i, j = np.triu_indices(n)
+    v = (1 + (i * 7 + j * 13) % 1000).astype(np.int32)
+    bins = [("chr2", q * 10, (q + 1) * 10) for q in range(1000)] + [("chr10", q * 10, (q + 1) * 10) for q in range(450)]
+    R.ev(1, 1)
+    R.add("states")
+    R.add("transitions", 8)
+    R.add("traces")
+    R.cls("million-pixels")
+    p = scratch.fresh()
+    try:
+        step = 400000
+        chunks = ({"bin1_id": i[a:a + step], "bin2_id": j[a:a + step], "count": v[a:a + step]} for a in range(0, len(i), step))
+        try:
+            cooler.create_cooler(p, build.bins_df(bins), chunks, ordered=True, h5opts={"compression": None, "shuffle": False})
+        except Exception as e:
+            R.mismatch("create-raises:" + type(e).__name__, {"n": n}, f"{e!s:.300}")
+            return
+        clr = cooler.Cooler(p)
+        b = int(i[1000000])                       # the row that holds record 1,000,000
+        val = lambda a, c: 1 + (min(a, c) * 7 + max(a, c) * 13) % 1000      # noqa: E731
+        for (i0, i1, j0, j1) in ((b - 2, b + 3, 0, n), (0, n, b - 1, b + 2), (0, 3, 0, n), (n - 3, n, 0, n), (b - 1, b + 2, b - 1, b + 2)):
+            inner = {"window": [i0, i1, j0, j1]}
+            if only is not None and only != inner:
+                continue
+            A = np.asarray(clr.matrix(balance=False)[i0:i1, j0:j1], dtype=np.int64)
+            W = np.array([[val(a, c) for c in range(j0, j1)] for a in range(i0, i1)], dtype=np.int64)
+            if A.shape != W.shape or not np.array_equal(A, W):
+                bad = np.argwhere(A != W)[:5].tolist() if A.shape == W.shape else "shape"
+                R.mismatch("full-matrix(dense)!=completion", inner, f"{int((A != W).sum()) if A.shape == W.shape else '?'} cells differ, first at {bad}")
+        if only is None:
+            df = clr.pixels()[1000000 - 3:1000000 + 3]
+            if df["bin1_id"].tolist() != i[999997:1000003].tolist() or df["bin2_id"].tolist() != j[999997:1000003].tolist() or df["count"].tolist() != v[999997:1000003].tolist():
+                R.mismatch("pixel-table!=input-records", {"rows": "1e6-3 .. 1e6+3"}, f"{df.values.tolist()}")
+            if int(clr.info["nnz"]) != len(i):
+                R.mismatch("pixel-table!=input-records", {"nnz": int(clr.info["nnz"])}, f"want {len(i)}")
+            vv = h5ref.validate(p, "/")
+            if vv:
+                R.mismatch("V:" + vv[0].split(":")[1], {"n": n}, f"{vv}")
+    finally:
+        scratch.rm(p)
+
+
 def _idtypes(R, unit, only):
     import cooler
     dt, n, symm = unit["dtype"], unit["n"], unit["symm"]
@@ -620,12 +668,12 @@ def _idtypes(R, unit, only):
                    | ({(n - 1, 0), (n - 1, n - 2), (n // 2, 1), (2, 1)} if not symm else set()))
     for signed in (False, True):
         pix = {c: {"count": (alpha.value(7, c[0] % 7, c[1] % 7) + 1) * (-1 if signed and (c[0] + c[1]) % 2 else 1)} for c in cells}
-        for form in ("frame-sorted", "frame-reversed", "dict-reversed", "chunks"):
+        for form in ("frame-sorted", "frame-reversed", "dict-reversed", "chunks", "chunks-reversed+ensure_sorted", "unordered-reversed+ensure_sorted"):
             inner = {"signed": signed, "form": form}
             if only is not None and only != inner:
                 continue
             keys = sorted(pix)
-            if form.endswith("reversed"):
+            if "reversed" in form:
                 keys = keys[::-1]
             d = {"bin1_id": np.array([k[0] for k in keys], dtype=dt), "bin2_id": np.array([k[1] for k in keys], dtype=dt),
                  "count": np.array([pix[k]["count"] for k in keys], dtype=np.int32)}
@@ -637,12 +685,22 @@ def _idtypes(R, unit, only):
             p = scratch.fresh()
             try:
                 try:
+                    kw = {"ordered": True}
                     if form == "chunks":
                         h = len(keys) // 2
                         arg = iter([pd.DataFrame({c: v[:h] for c, v in d.items()}), pd.DataFrame({c: v[h:] for c, v in d.items()})])
+                    elif form == "chunks-reversed+ensure_sorted":
+                        # rows of each chunk in decreasing order, chunk ranges themselves in increasing order; sorting is requested
+                        h = len(keys) // 2
+                        arg = iter([pd.DataFrame({c: v[h:] for c, v in d.items()}), pd.DataFrame({c: v[:h] for c, v in d.items()})])
+                        kw = {"ordered": True, "ensure_sorted": True}
+                    elif form == "unordered-reversed+ensure_sorted":
+                        h = len(keys) // 2
+                        arg = iter([pd.DataFrame({c: v[:h] for c, v in d.items()}), pd.DataFrame({c: v[h:] for c, v in d.items()})])
+                        kw = {"ordered": False, "ensure_sorted": True, "mergebuf": 2}
                     else:
                         arg = d if form.startswith("dict") else pd.DataFrame(d)
-                    cooler.create_cooler(p, bdf, arg, symmetric_upper=symm, ordered=True)
+                    cooler.create_cooler(p, bdf, arg, symmetric_upper=symm, **kw)
                 except Exception as e:
                     R.mismatch("create-raises:" + type(e).__name__, inner, f"{e!s:.300}")
                     continue
@@ -687,6 +745,9 @@ def run(unit, R, tier, only=None):
     leg = unit["leg"]
     if leg == "idtypes":
         _idtypes(R, unit, only)
+        return
+    if leg == "million":
+        _million(R, only)
         return
     if leg == "binsform":
         _binsform(R, unit["b"], only)
